@@ -176,7 +176,8 @@ class Scale(EnvironmentFilter):
             for interaction in chain(fitting_interactions, remaining_interactions):
                 context = interaction['context']
                 for i,(shift,scale) in scaling_tuples:
-                    context[i] = (context[i]+shift)*scale
+                    if context[i] is not None:
+                        context[i] = (context[i]+shift)*scale
                 yield interaction
 
         if is_sparse_context:
@@ -185,7 +186,8 @@ class Scale(EnvironmentFilter):
                 context = interaction['context']
                 for k in scaling_dict.keys() & context.keys():
                     (shift,scale) = scaling_dict[k]
-                    context[k] = (context[k]+shift)*scale
+                    if context[k] is not None:
+                        context[k] = (context[k]+shift)*scale
                 yield interaction
 
         elif is_value_context:
